@@ -172,6 +172,107 @@ def collect(tier, seed):
     return traces, wit
 
 
+def composite_partial_enter(arg):
+    """A composite of observers one of whose members cannot be entered: run raises; every member that was
+    entered must be exited exactly once, and no thread of a bundled observer may be left running."""
+    order, first_kind = arg
+    import threading
+
+    import uberjob
+    from uberjob.progress import Progress, console_progress
+
+    from .. import cexec as CE
+
+    lock = threading.Lock()
+    sinks = {}
+
+    class Boom(Exception):
+        pass
+
+    def failing():
+        from uberjob.progress import ProgressObserver
+
+        class F(ProgressObserver):
+            def __enter__(self):
+                raise Boom("observer cannot be entered")
+
+            def __exit__(self, *a):
+                pass
+
+            def increment_total(self, **k):
+                pass
+
+            def increment_running(self, **k):
+                pass
+
+            def increment_completed(self, **k):
+                pass
+
+            def increment_failed(self, **k):
+                pass
+
+        return F()
+
+    members = []
+    for name in order:
+        if name == "F":
+            members.append(Progress(failing))
+        elif name == "C":
+            members.append(console_progress)
+        else:
+            sinks[name] = []
+            members.append(Progress(lambda n=name: CE.make_observer(sinks[n], lock)))
+    plan = uberjob.Plan()
+    x = plan.call(lambda: 1)
+    n0 = threading.active_count()
+    raised = None
+    import contextlib, io
+
+    with contextlib.redirect_stdout(io.StringIO()):
+        try:
+            uberjob.run(plan, output=x, progress=tuple(members), max_workers=1)
+        except Boom as ex:
+            raised = ex
+        except BaseException as ex:  # noqa
+            raised = ex
+    fails = []
+    if "F" in order and not isinstance(raised, Boom):
+        fails.append({"what": "enter_failure_not_propagated", "detail": repr(raised)[:200]})
+    for name, notes in sinks.items():
+        ents = sum(1 for k in notes if k[0] == "enter")
+        exits = sum(1 for k in notes if k[0] == "exit")
+        if ents != exits or ents > 1:
+            fails.append({"what": "member_not_exited_exactly_once", "detail": f"member {name} of {order}: entered {ents}, exited {exits}"})
+    import time
+
+    t0 = time.time()
+    while threading.active_count() > n0 and time.time() - t0 < 3:
+        time.sleep(0.05)
+    if threading.active_count() > n0:
+        left = [t.name for t in threading.enumerate()][n0:]
+        fails.append({"what": "observer_thread_left_running", "detail": f"{order}: {threading.active_count() - n0} thread(s) still alive after run raised"})
+        # do not let a leaked non-daemon update thread block this worker's exit
+        for t in threading.enumerate():
+            ev = getattr(getattr(t, "_target", None), "__self__", None)
+            if ev is not None and hasattr(ev, "_done_event"):
+                ev._done_event.set()
+    return {"fails": fails}
+
+
+PARTIAL_ORDERS = [("A", "F"), ("A", "B", "F"), ("A", "F", "B"), ("F", "A"), ("C", "F"), ("A", "C", "F"), ("A", "B")]
+
+
+def run_partial(res, prop):
+    outs = common.pmap(composite_partial_enter, [(o, None) for o in PARTIAL_ORDERS], nproc=4)
+    for o, r in zip(PARTIAL_ORDERS, outs):
+        for f in r["fails"]:
+            p = "C07" if f["what"] == "observer_thread_left_running" else "C15"
+            if p == prop:
+                res.add_violation(f"{prop}:composite:{f['what']}", f"composite observer {o}: {f['detail']}", {"partial": True, "order": list(o), "failure": f})
+    res.merge_counts(evaluations=len(PARTIAL_ORDERS))
+    res.coverage["composite_partial_enter_orders"] = len(PARTIAL_ORDERS)
+
+
 def run(tier, seed):
     res = common.Result(PROP, tier, seed, "model_checking")
     res.assumptions = [
@@ -199,11 +300,20 @@ def run(tier, seed):
             raise common.MachineryError(f"progress monitor: unmapped clauses {unknown} for {wit[idx]['kind']}")
         res.add_violation(f"C15:progress:{cs[0]}", f"Progress clause {cs[0]} broken by the notifications of a real run ({wit[idx]['kind']})",
                           {"source": wit[idx], "clauses": clauses[:10], "events": traces[idx]["events"][:120]})
+    run_partial(res, PROP)
     res.add_samples([{"source": wit[0]["kind"], "events": [[e["e"], e["sec"], e["sc"], e["amt"]] for e in traces[0]["events"]][:40]}])
     return res
 
 
 def replay(w):
+    if w["witness"].get("partial"):
+        r = composite_partial_enter((tuple(w["witness"]["order"]), None))
+        print(r)
+        if r["fails"]:
+            print(f"VIOLATION property={PROP} replay=(reproduced)")
+            return 1
+        print("not reproduced")
+        return 0
     wit = w["witness"]["source"]
     if wit["kind"] == "history":
         o = CE.run_history(wit["task"])
